@@ -87,7 +87,7 @@ impl Default for Digest {
 
 impl fmt::Display for Digest {
     fn fmt(&self, f: &mut fmt::Formatter<'_>) -> fmt::Result {
-        write!(f, "{}", self.0.map(|elem| elem.to_string()).join(","))
+        write!(f, "{}", self.0.map(|elem| elem.value().to_string()).join(","))
     }
 }
 
